@@ -1059,7 +1059,7 @@ func (w *w3World) runCall(o *w3Out, v *w3Variant, call *w3Call, set w3SigSet, re
 	rec.Met = met
 	succeeded = met && class == "OHaltOther"
 	silentNoop := mkey == "container.delete/3" || mkey == "neofs.onNEP17Payment/3" // Model/Witness.v silent_noops
-	refusingFalse := mkey == "balance.transfer/4" || mkey == "nns.transfer/3"       // Model/Witness.v refuses_with_false
+	refusingFalse := mkey == "nns.transfer/3" // Model/Witness.v refuses_with_false
 	privileged := false
 	for _, p := range ps {
 		if p.Name != "stranger" {
@@ -1141,6 +1141,9 @@ type w3Variant struct {
 	Label  string
 	Build  func(w *w3World, i int) *w3Call
 	Repeat bool // the arguments are those of an earlier successful call
+	// Boundary variants run under few signer sets: the unprivileged and
+	// wrong-authority ones that do not meet the requirement, plus one that does.
+	Boundary bool
 }
 
 func w3DefaultArg(w *w3World, p manifest.Parameter) any {
@@ -1199,6 +1202,24 @@ func (w *w3World) runSets(o *w3Out, v *w3Variant, req *w3Req, next func() *w3Cal
 		items = append(items, item{s, met})
 	}
 	sort.SliceStable(items, func(i, j int) bool { return !items[i].met && items[j].met })
+	if v.Boundary {
+		var kept []item
+		unmet, met := 0, 0
+		for _, it := range items {
+			n := it.s.Name
+			wanted := n == "nobody" || n == "stranger" || n == "committee-majority" || n == "alphabet" ||
+				(strings.HasPrefix(n, "named:") && !strings.Contains(n, "+") && n != "named:all")
+			switch {
+			case !it.met && wanted && unmet < 6:
+				unmet++
+				kept = append(kept, it)
+			case it.met && met < 1:
+				met++
+				kept = append(kept, it)
+			}
+		}
+		items = kept
+	}
 	if probe.Via != "" {
 		// a token transfer to the contract: the interesting witness is the sender's
 		items = []item{{w3SigSet{Name: "token-holder"}, true}}
@@ -1299,6 +1320,102 @@ func (w *w3World) sweep(o *w3Out, table map[string]*w3Req, variants []*w3Variant
 		w.runSets(o, &rv, req, func() *w3Call { return ok.again(w) })
 	}
 	w.crossReplay(o, table, oks)
+	w.boundaryPass(o, table, variants)
+}
+
+type w3Mutation struct {
+	desc string
+	val  any
+}
+
+// w3Mutations lists the boundary values tried for one argument.
+func w3Mutations(m *manifest.Method, args []any, i int) []w3Mutation {
+	var out []w3Mutation
+	switch m.Parameters[i].Type.String() {
+	case "Integer":
+		out = append(out, w3Mutation{"0", int64(0)}, w3Mutation{"-1", int64(-1)}, w3Mutation{"2^40", int64(1) << 40})
+	case "ByteArray":
+		out = append(out, w3Mutation{"empty", []byte{}}, w3Mutation{"Null", nil})
+		if b, ok := args[i].([]byte); ok && len(b) > 1 {
+			out = append(out, w3Mutation{"one byte shorter", append([]byte{}, b[:len(b)-1]...)})
+		}
+	case "Hash160":
+		out = append(out, w3Mutation{"Null", nil}, w3Mutation{"19 bytes", w3Fill(19, 7)})
+		for j, p := range m.Parameters {
+			if j != i && p.Type.String() == "Hash160" && args[j] != nil {
+				out = append(out, w3Mutation{"same as " + p.Name, args[j]})
+				break
+			}
+		}
+	case "Hash256":
+		out = append(out, w3Mutation{"Null", nil}, w3Mutation{"31 bytes", w3Fill(31, 7)})
+	case "PublicKey":
+		out = append(out, w3Mutation{"Null", nil}, w3Mutation{"32 bytes", w3Fill(32, 7)})
+	case "String":
+		out = append(out, w3Mutation{"empty", ""})
+	case "Array":
+		out = append(out, w3Mutation{"empty", []any{}}, w3Mutation{"Null", nil})
+	case "Boolean":
+		if b, ok := args[i].(bool); ok {
+			out = append(out, w3Mutation{fmt.Sprint(!b), !b})
+		}
+	}
+	return out
+}
+
+// boundaryPass re-sends every builder's call with ONE argument replaced by a
+// boundary value of its type (0, -1, a huge number; empty, Null or
+// wrong-length byte strings; the same account twice; ...), under the signer
+// sets that do not meet the requirement and under one that does.  Guards
+// that sit behind an argument-dependent shortcut are exposed here.
+func (w *w3World) boundaryPass(o *w3Out, table map[string]*w3Req, variants []*w3Variant) {
+	seq := 1 << 20
+	for _, v := range variants {
+		if v.Repeat || strings.HasPrefix(v.M, "_") || v.M == "update" {
+			continue
+		}
+		req := table[w3MKey(v.C, v.M, v.Arity)]
+		m := w.methodOf(v.C, v.M, v.Arity)
+		if req == nil || m == nil {
+			continue
+		}
+		seq++
+		probe := v.Build(w, seq)
+		if probe.Via != "" || len(probe.Args) != len(m.Parameters) {
+			continue
+		}
+		for i := range m.Parameters {
+			for _, mu := range w3Mutations(m, probe.Args, i) {
+				i, mu := i, mu
+				lbl := v.Label
+				if lbl != "" {
+					lbl += " "
+				}
+				bv := &w3Variant{C: v.C, M: v.M, Arity: v.Arity, Repeat: true, Boundary: true,
+					Label: fmt.Sprintf("%s[boundary: %s = %s]", lbl, m.Parameters[i].Name, mu.desc)}
+				mk := func() *w3Call {
+					seq++
+					c := *v.Build(w, seq)
+					c.Args = append([]any{}, c.Args...)
+					c.Princ = append([]*w3Princ{}, c.Princ...)
+					c.Nulls = append([]int{}, c.Nulls...)
+					c.Args[i] = mu.val
+					switch m.Parameters[i].Type.String() {
+					case "Hash160", "PublicKey":
+						if i < len(c.Princ) {
+							c.Princ[i] = nil // re-derived from the new value
+						}
+					}
+					if mu.val == nil {
+						c.Nulls = append(c.Nulls, i)
+					}
+					c.SigsOK = false // signatures passed as argument no longer match the mutated call
+					return &c
+				}
+				w.runSets(o, bv, req, mk)
+			}
+		}
+	}
 }
 
 func w3TypesCompatible(a, b manifest.Parameter) bool {
